@@ -51,3 +51,9 @@ chk('C07', 'exploration',
     '(sys.monitoring function-entry counter) stands in for termination. Absence of crashes is only claimed for the inputs produced; evidence carries the outcome histogram.',
     'Trusted: the allowed-outcome classifier in checks/c07.py; termination is a bounded-progress check, not a proof.',
     'runtime monitoring under mutation/fuzz workloads with exception classification and a logical step budget', 'DESIGN.md 5 C07')
+chk('C05', 'exploration',
+    'For every generated valid / multiply faulty / multi-set / multi-group / multi-interchange document (4010 and 5010) the boolean verdict, the captured error tree, the ERROR log stream and the '
+    'parsed acknowledgement are compared with one another and with an independent recount of the input (groups, sets, GE01, accepted sets, segment ids at reported positions). '
+    'Relational agreement is held on the documents produced; structural mutants are judged on the verdict relation only.',
+    'Trusted: vlib/ref_ack.py, input_structure() recount in checks/c05.py, the acknowledgement code tables taken from the X12 997/999 definitions.',
+    'relational runtime oracle over verdict, hooked error tree, log stream and parsed acknowledgement', 'DESIGN.md 5 C05')
